@@ -24,9 +24,26 @@ PARTIAL = [
     "(remove_removable_knot_preserves_points) and operations.remove_knot on the curve object does the same with the library's own searches "
     "(curve_remove_removable_knot); surfaces per direction: when every iso-curve of the direction is removable the gather / A5.8 / scatter returns "
     "exactly the witness net and the reduced size (surface_v/u_remove_removable_knot); instantiated on a knot produced by refinement and followed by "
-    "other insertions. NOT proved: 'removable at all' for volumes (mapVol lift; per iso-curve it is the curve theorem) and at object level for "
-    "surfaces / volumes (removeKnot on a Shape with the library's searches), partial removal t < r for surfaces, and removable knots in a curve some of whose basis functions vanish on the whole domain (a knot of multiplicity > p+1: "
-    "there the control points are NOT unique); these are checked by the exact oracle and the correspondence only",
+    "other insertions. ALSO PROVED (section (T), tensor products): the control net of a B-spline SURFACE / VOLUME over knot vectors in which no basis function vanishes "
+    "on its whole domain is unique (surface_control_net_unique, volume_control_net_unique, *_object_control_net_unique; global linear independence of "
+    "the basis on its domain, basis_functions_independent_on_domain, applied once per direction); hence a knot that is removable from the surface / "
+    "volume AS A SURFACE / VOLUME (SurfRemovableU/V, VolRemovableU/V/W: some net over the reduced knot vector has the same surface / volume points) is "
+    "removable from every iso-curve of its direction (surface_u/v_removable_isocurves_removable, volume_removable_isocurves_removable) and the gather / "
+    "A5.8 / scatter returns exactly the witness net and the reduced size (surface_u/v_remove_knot_removable_from_surface, "
+    "volume_remove_knot_removable_from_volume - for volumes both the per-iso-curve model mapVol and the list-of-rows branch mapVolRows the code runs, "
+    "since a removable knot passes the removability test of every step: removable_knot_passes_every_test, volume_rows_remove_removable_knot); "
+    "per-iso-curve hypothesis for volumes in all three directions, and partial removal t <= r for surfaces and volumes = r-t insertions into the witness "
+    "(volume_u/v/w_remove_removable_knot, surface_u/v_remove_removable_knot_t); OBJECT LEVEL with the library's own span / multiplicity searches: a "
+    "surface / volume Shape S from which ub is removable r times (witness Shape T; SurfRemovableObj / VolRemovableObj, also obtainable from the knot "
+    "positions on S: surface/volume_removable_object_of_knot_positions) IS insertKnot of T (surface/volume_removable_knot_is_inserted), removeKnot S with "
+    "count 1 <= t <= r returns the object of r-t insertions into T, T itself for t = r, evaluated points unchanged "
+    "(surface/volume_remove_removable_knot_object, *_object_points), and for volumes the rows branch removeKnotVolRows does the same "
+    "(volume_remove_removable_knot_object_rows); knot insertion preserves AllActive when the parameter is strictly right of the left end of the domain "
+    "(insertion_preserves_allActive; refuted without that proviso on an unclamped knot vector: insertion_preserves_allActive_needs_interior), so the "
+    "activity hypothesis may be checked on the reduced knot vector (removableKnot_of_reduced_active); all instantiated on explicit surfaces / volumes "
+    "over Q. NOT proved: the 'removable at all' forms when ONE remove_knot call requests several directions (OnlyDir is assumed), and removable knots in "
+    "a curve / surface / volume some of whose basis functions vanish on the whole domain (a knot of multiplicity > p+1, or an unclamped knot vector "
+    "refined at the left end of its domain: there the control points are NOT unique); these are checked by the exact oracle and the correspondence only",
     "object-level (Shape) round trip removeKnot (insertKnot S ...).1 ... = (S, true), the partial version (r in, t <= r out = r - t in) and the evaluated-point corollary are proved for curves, for either direction of a surface and for any direction of a volume (surface_insert_then_remove, volume_insert_then_remove, *_insert_r_remove_t_object, *_remove_after_insert_preserves_points) when the call requests ONE direction (OnlyDir); insert in several directions followed by removal in several directions is not proved (the removal of the first direction then runs on a net refined in the others: needs the commutation of insertion in one direction with removal in another)",
     "volumes, list-of-rows branch of helpers.knot_removal: MODELLED as coded (knotRemovalRows: sweep over whole rows, ONE removability flag per step from the FIRST point of the rows, and the object sharing between temp and ctrlpts_new - temp[last-first+2] = ctrlpts_new[last+1] stores the list itself, which the sweep of the next step writes into; streams rem-rows (inserted / random / only-first-removable / first-not-removable rows, 1..s copies, and the three Lean witnesses) and rem-vol-rows against the real helper called with rows and against operations.remove_knot on volumes, removable or not). PROVED: if every iso-curve passes the removability test at every step (Rows.AllRemovable, decidable; true after insertion: inserted_knots_all_removable) the rows branch returns exactly the per-iso-curve results (knotRemovalRows_isocurve_of_all_removable, knotRemovalRows_is_transposed_knotRemoval, mapVolRows_remove_eq_mapVol, removeKnotVolRows_is_removeKnotDir, volume_u/v/w_rows_insert_r_remove_t); for ONE removal it does so on every iso-curve whose flag equals the first iso-curve's flag (knotRemovalRows_one_removal_isocurve_of_equal_flags); rows stay rectangular for any input. REFUTED on concrete witnesses (kernel-decided, replayed on the implementation): the two flag mismatches (knotRemovalRows_refutes_isocurve_when_only_first_removable / _when_first_not_removable) and, for 2+ removals of a knot that is NOT removable, the write through the shared row, which changes a control point even with a single iso-curve (knotRemovalRows_refutes_point_branch_on_shared_row: rows branch 8, point branch 1). NOT proved: agreement for 2+ removals when some step finds the knot not removable (there the two branches of the CODE genuinely differ); the object-level model removeKnotDir / removeKnot keeps deciding per iso-curve, so the operation-level streams ins-rem* still generate only removable knots for volumes - the rows model (rowsvol) is the one compared on unremovable volume knots",
     "knotRemovalRows_isocurve_of_all_removable / knotRemovalRows_one_removal_isocurve_of_equal_flags carry the rectangular-rows guard of the code / driver as hypothesis (not used by the proofs)",
